@@ -41,6 +41,9 @@ QUICK_PATTERNS = [['first', 'next', 'next', 'prev'], ['last', 'prev', 'next', 'n
                   ['last', 'prev', 'first', 'next'], ['first', 'next', 'last', 'prev']]
 
 
+LABEL_CLEANUP = 'a registered clean-up closure runs while the merging iterator is still alive (a database iterator releases its pinned version this way: the table files it reads can then be deleted under it)'
+
+
 def o4_1_merging(mir, tier):
     ops = {n: mir.method('MergingIterator', n, 'RainDbIterator') for n in ('seek', 'seek_to_first', 'seek_to_last', 'next', 'prev', 'is_valid', 'current')}
     if tier == 'quick':
@@ -67,6 +70,11 @@ def o4_1_merging(mir, tier):
             S['$patterns'][BOXDYN] = lib.ptr_deref
             S['$patterns'][r'<Vec<u8> as Clone>::clone'] = lib.clone_deep
             S['$patterns'][r'<\(InternalKey, Vec<u8>\) as Clone>::clone'] = lib.clone_deep
+            # one clean-up closure is registered (DB::new_iterator registers the release of its pinned version this way): calling it is an event
+            def call_cleanup(se, env, pc, f, *a):
+                st = dict(env['$state']); st['cleanups'] = st.get('cleanups', 0) + 1
+                return [(None, (), st)]
+            S['$patterns'][r'<Box<dyn FnOnce\(\)> as FnOnce<\(\)>>::call_once'] = call_cleanup
             for pat in patterns:
                 nruns += 1
                 tk = w.key('t'); T = w.K(tk)
@@ -77,7 +85,7 @@ def o4_1_merging(mir, tier):
                     heap['$c%d' % c] = absiter.make([(keys[c][i], vals[c][i]) for i in range(nn)])
                     its.append(mir.mk_struct('CachingIterator', iterator=Ref('$c%d' % c), is_valid=BoolVal(False), cached_entry=Enum('None')))
                 heap['$m'] = mir.mk_struct('MergingIterator', iterators=its, direction=Enum('Forward', (), 'IterationDirection'), current_iterator_index=Enum('None'),
-                                           errors=[Enum('None')] * len(sizes), cleanup_callbacks=[])
+                                           errors=[Enum('None')] * len(sizes), cleanup_callbacks=[{'closure': 'release of the pinned version', '__ty': 'Box<dyn FnOnce()>'}])
                 def drive(env, pc, i, pos, trace, pat=pat, ex=ex, merged=merged, n=n, T=T):
                     if i == len(pat): return finish(env, pc, trace, pat, ex, merged, n, T)
                     op = pat[i]
@@ -104,6 +112,9 @@ def o4_1_merging(mir, tier):
                     ex.run_fn(ops[opname[op]], args, env, pc, after)
                 def finish(env, pc, trace, pat, ex, merged, n, T):
                     ex.paths += 1
+                    if env['$state'].get('cleanups', 0) and not any(v['label'] == LABEL_CLEANUP for v in res.violations):
+                        ex.record_formula(LABEL_CLEANUP, pc, BoolVal(True))
+                        res.violations.append({'label': LABEL_CLEANUP, 'children': list(sizes), 'pattern': pat, 'replay': ['exhausted_iterator_pin']})
                     for step, (op, valid, obs, exp) in enumerate(trace):
                         if exp is None: ok = And(Not(valid), BoolVal(obs is None)) if not isinstance(valid, bool) else BoolVal(obs is None)
                         elif obs is None: ok = BoolVal(False)
@@ -420,6 +431,11 @@ def _merge_ref(argv):
 
 
 def o4_1_confirm(v, out):
+    if v['replay'][0] == 'exhausted_iterator_pin':
+        if out.get('_rc') != 0: return (True, 'native run panicked / failed: %s' % out.get('_stderr', '')[-300:])
+        bad = out.get('pinned_table_on_disk') != 'true' or out.get('view_ok') != 'true'
+        return (bad, 'an iterator is scanned to its end and kept; the data is overwritten and compacted: the table it read (%s) still on disk: %s (tables %s); a second scan through the same iterator shows %s'
+                % (out.get('pinned_table'), out.get('pinned_table_on_disk'), out.get('tables_on_disk'), out.get('iterator_view')))
     if out.get('_rc') != 0: return (True, 'native iterator panicked: %s' % out.get('_stderr', '')[-300:])
     exp = _merge_ref(v['replay']); got = out.get('cursor', '').split(',')[:len(exp)]
     return (got != exp, 'native cursor %s, merged-array cursor %s' % (got, exp))
